@@ -173,14 +173,14 @@ impl OutstationApplication for App {
         MaybeAsync::ready(true)
     }
     fn begin_confirm(&mut self) {
-        vt::log("cb begin_confirm".to_string());
+        vt::log("> cb begin_confirm".to_string());
     }
     fn event_cleared(&mut self, id: u64) {
-        vt::log(format!("cb event_cleared {}", id));
+        vt::log(format!("> cb event_cleared {}", id));
     }
     fn end_confirm(&mut self, state: BufferState) -> MaybeAsync<()> {
         vt::log(format!(
-            "cb end_confirm {} {} {}",
+            "> cb end_confirm {} {} {}",
             state.classes.num_class_1, state.classes.num_class_2, state.classes.num_class_3
         ));
         MaybeAsync::ready(())
